@@ -13,13 +13,13 @@ NL, TAB = "\n", "\t"
 # alphabets: name -> (characters, MaxLen quick, MaxLen thorough)
 ALPHABETS = {
     "general": (["a", "1", " ", TAB, NL, "\\", "/", "*", "<", ":", "=", '"'], 4, 5),
-    "splice":  (["a", " ", NL, "\\", "?", "/", '"', "'", "*"], 5, 6),
+    "splice":  (["a", " ", NL, "\\", "?", "/", '"', "'", "*"], 4, 6),
     "splice2": (["a", NL, "\\", "?", "/"], 6, 7),
     "splicetab": (["\\", NL, TAB, '"', "a", "/"], 6, 7),
     "alt":     (["?", "<", ">", ":", "%", "(", ")", "=", "/", "'", "!", "-", "a"], 4, 5),
     "ops":     (list("+-*/%<>=!&^~.?:;,#|"), 3, 4),
     "quote":   (["a", "\\", '"', "'", NL, "x", "0", "7", "n", "q", "L", "u", "8"], 4, 5),
-    "tab":     ([TAB, " ", "a", NL, "/", "*"], 6, 7),
+    "tab":     ([TAB, " ", "a", NL, "/", "*"], 5, 7),
     "num":     (["0", "1", "8", "x", "b", "e", "p", ".", "+", "u", "l", "f", "a"], 4, 5),
 }
 
